@@ -53,8 +53,26 @@ def subProfiles (ls : List (List Char)) : List (List Char) :=
   ls.filterMap (fun l =>
     if indented l && "profile ".toList.isPrefixOf (dropSpaces l) then (words l)[1]? else none)
 
+def indentOf (l : List Char) : Nat := (l.takeWhile (· == ' ')).length
+
+/-- the lines of the block opened at the head of `ls` (whose header is indented by `k`): up to the first line that
+closes it (`}` at the same indentation) -/
+def blockBody (k : Nat) : List (List Char) → List (List Char)
+  | [] => []
+  | l :: rest => if indentOf l == k && dropSpaces l == ['}'] then [] else l :: blockBody k rest
+
+/-- every sub-profile holds, inside its own block, the local include named after it -/
+def subIncludesIn (name : List Char) : List (List Char) → Bool
+  | [] => true
+  | l :: rest =>
+    (if indented l && "profile ".toList.isPrefixOf (dropSpaces l) then
+      match (words l)[1]? with
+      | some s => (blockBody (indentOf l) rest).any (fun x => dropSpaces x == localInclude (name ++ '_' :: s))
+      | none => true
+     else true) && subIncludesIn name rest
+
 def subIncludesOk (name : List Char) (ls : List (List Char)) : Bool :=
-  (subProfiles ls).all (fun s => hasIndentedLine ls (localInclude (name ++ '_' :: s)))
+  (subProfiles ls).all (fun s => hasIndentedLine ls (localInclude (name ++ '_' :: s))) && subIncludesIn name ls
 
 /-- the contract for one profile file; `name` is the file name minus `.apparmor.d` -/
 def ok (name : List Char) (ls : List (List Char)) : Bool :=
